@@ -4,6 +4,8 @@ pub mod rng;
 pub mod shrink;
 pub mod stream;
 pub mod gen_stream;
+pub mod doc;
+pub mod files;
 pub mod props;
 
 use ctx::Ctx;
